@@ -54,6 +54,8 @@ Obligation names (prefix = function; what a VIOLATION reports):
       supported_page_is_not_refused@L<line>:<exception> / @assert-L<line>
  read_dictionary_page.  page_bytes.*  count_is_header_num_values  decodes_whole_page_as_plain  returns_the_decoded_values
       non_plain_dictionary_page_raises
+ <each function>.schema_element_is_the_one_at_the_chunks_path: every schema element looked up is helper.schema_element(cmd.path_in_schema)
+      (the tree walk), never schema_elements_by_name[leaf name] (leaf names are shared by nested columns)
  + the engine's own safety obligations (<func>.no_attr_of_None@L.., slice_start_nonnegative, allocation_size_nonnegative, ...).
 Findings.  Twelve defects of /repo were re-derived / found here (contracts/findings.jsonl, ids C03-P-*, each replayed natively by
 tools/c03pages_native.py); three of them are repaired in /repo (fixed-C03-v1-dict-boolean-width-byte efe7e45, fixed-C03-v1-rle-boolean-
@@ -786,8 +788,32 @@ class Helper:
         if name == "max_repetition_level":
             return [(p, PyI(S.max_rep))]
         if name == "schema_element":
+            emit(p, kind="schema_lookup", how="path", own=own, func=eng.cur_func, line=node.lineno)
             return [(p, Custom(S.se))]
         raise Unsupported("schema_helper." + name)
+
+    def attr(self, eng, p, name):
+        if name == "schema_elements_by_name":
+            return Custom(ByLeafName(self.S))
+        raise Unsupported("schema_helper." + name)
+
+
+class ByLeafName:
+    """SchemaHelper.schema_elements_by_name: name -> the LAST schema element of that name.  Leaf names are not unique (every 3-level LIST
+    has a leaf `element`, every MAP `key` / `value`): what comes back is AN element of that name, its path may be another column's"""
+    tracked = False
+
+    def __init__(self, S):
+        self.S = S
+
+    def getitem(self, eng, p, i, node):
+        emit(p, kind="schema_lookup", how="leaf name", own=False, func=eng.cur_func, line=node.lineno)
+        return Custom(self.S.se_same_name)
+
+    def call_method(self, eng, p, name, args, kw, node):
+        if name == "get":
+            return [(p, self.getitem(eng, p, args[0], node))]
+        raise Unsupported("schema_elements_by_name." + name)
 
 
 class Schema:
@@ -805,6 +831,11 @@ class Schema:
         self.se = Rec("SchemaElement", {"type_length": Opt(z3.Bool("se.type_length_is_None"), PyI(z3.Int("se.type_length"))),
                                         "converted_type": Opt(z3.Bool("se.converted_type_is_None"), PyI(z3.Int("se.converted_type"))),
                                         "type": PyI(self.ptype), "repetition_type": PyI(z3.Int("se.repetition_type"))})
+        # an element of the same leaf name somewhere else in the schema tree: nothing relates its fields to this column's
+        self.se_same_name = Rec("SchemaElement(same leaf name, other path)", {
+            "type_length": Opt(z3.Bool("other_se.type_length_is_None"), PyI(z3.Int("other_se.type_length"))),
+            "converted_type": Opt(z3.Bool("other_se.converted_type_is_None"), PyI(z3.Int("other_se.converted_type"))),
+            "type": PyI(z3.Int("other_se.type")), "repetition_type": PyI(z3.Int("other_se.repetition_type"))})
         self.stats = Rec("Statistics", {"null_count": PyI(self.null_count)})
         self.cmd = Rec("ColumnMetaData", {
             "path_in_schema": Custom(self.path), "type": PyI(self.ptype), "codec": PyI(self.codec), "num_values": PyI(self.num_values),
@@ -1591,6 +1622,17 @@ def page_bytes_obligations(eng, q, fn, f, entry, page, S, body_needed=True):
     return decs[0]["region"] if ok_dec else None
 
 
+def pose_schema_element(eng, q, fn):
+    """the schema element used for width / converted type / encoding decisions is the one AT the chunk's path_in_schema in the schema
+    tree (SchemaHelper.schema_element(path): the tree walk, contracts c03_schematree), never a lookup keyed by the leaf name alone"""
+    ls = events(q, "schema_lookup")
+    eng.pose(q, fn + ".schema_element_is_the_one_at_the_chunks_path", z3.BoolVal(all(e["how"] == "path" and e["own"] for e in ls)),
+             "every schema element this function looks up is helper.schema_element(cmd.path_in_schema); leaf names are not unique (every "
+             "3-level LIST has a leaf `element`), a lookup by leaf name returns another column's element"
+             + ("" if all(e["how"] == "path" and e["own"] for e in ls) else " [looked up by: %s]" % ", ".join(
+                 "%s at L%d" % (e["how"] if e["how"] != "path" else "another path", e["line"]) for e in ls if not (e["how"] == "path" and e["own"]))))
+
+
 def run_paths(eng, name, p, args, kw=None):
     outs = eng.run(name, p, args, kw or {})
     rets = [q for q in outs if q.ctl[0] == "ret"]
@@ -1631,6 +1673,7 @@ def run_dictionary_page(ctx, funcs, timeout):
         return res
     eng.default_region = z3.Not(in_set(page.denc, (ENC["PLAIN"], ENC["PLAIN_DICTIONARY"])))
     for q in rets:
+        pose_schema_element(eng, q, fn)
         body = page_bytes_obligations(eng, q, fn, f, entry, page, S)
         pl = events(q, "plain")
         ok = body is not None and len(pl) == 1
@@ -1721,6 +1764,7 @@ def run_data_page_v1(ctx, funcs, timeout):
     supported = in_set(E, SUPPORTED)
     n_must_fail = 0
     for q in rets:
+        pose_schema_element(eng, q, fn)
         body = page_bytes_obligations(eng, q, fn, f, entry, page, S)
         eng.pose(q, fn + ".unsupported_encoding_raises", supported,
                  "a page whose value encoding is outside PLAIN / PLAIN_DICTIONARY / RLE_DICTIONARY / RLE / DELTA_BINARY_PACKED reaches a raise")
@@ -2510,6 +2554,7 @@ def run_read_col(ctx, funcs, timeout, mode, any_sizes=False, mask=False):
         return res
     # ---- chunk bytes (prologue)
     for q0 in C.entries:
+        pose_schema_element(eng, q0, fn)
         fs, fr = events(q0, "fseek"), events(q0, "fread")
         start = z3.If(z3.And(z3.Not(S.dict_none), S.dict_off > 0), S.dict_off, S.dpo)
         ok = len(fs) == 1 and len(fr) == 1 and fs[0]["seq"] < fr[0]["seq"]
@@ -2664,6 +2709,7 @@ def run_data_page_v2(ctx, funcs, timeout):
             q.ghost["region"] = z3.Or(*[v for k_, v in R.items() if k_ != "categorical_dict_foreign"])
         eng.pose(q, fn + ".unsupported_encoding_raises", supported,
                  "a v2 page whose value encoding is outside PLAIN / dictionary / RLE / DELTA_BINARY_PACKED reaches a raise")
+        pose_schema_element(eng, q, fn)
         eng.pose(q, fn + ".rows.categorical_codes_only_from_dictionary_encoded_pages", z3.Implies(use_cat, is_dict),
                  "categorical read: only the indices of a dictionary-encoded page are stored as category codes [holds by the call-site "
                  "precondition use_cat => dictionary-encoded, which read_col establishes before the call; the function does not check it]")
@@ -2850,7 +2896,8 @@ def check(ctx, timeout, parts=("dictionary_page", "data_page_v1", "data_page_v2"
             "read_col": lambda c, f, t: [run_read_col(c, f, t, "values"), run_read_col(c, f, t, "categorical"),
                                          run_read_col(c, f, t, "values", any_sizes=True)],
             "read_col_mask": lambda c, f, t: [run_read_col(c, f, t, "values", mask=True)],
-            "read_col_cat": lambda c, f, t: [run_read_col(c, f, t, "categorical")]}
+            "read_col_cat": lambda c, f, t: [run_read_col(c, f, t, "categorical")],
+            "read_col_values": lambda c, f, t: [run_read_col(c, f, t, "values")]}
     for part in parts:
         if part not in runs:
             continue
